@@ -218,7 +218,7 @@ def aggregate(prop, tier, base_seed, mod, results, worker_errors, wall, quiet=Fa
         reasons.append("no_cases_ran")
 
     # replay files for new violations
-    replay_dir = os.path.join(VERIF, "replays", prop)
+    replay_dir = os.path.join(os.environ.get("VERIF_REPLAY_DIR") or os.path.join(VERIF, "replays"), prop)
     lines = []
     seen_cases = set()
     for r, v in violations:
@@ -273,8 +273,11 @@ def aggregate(prop, tier, base_seed, mod, results, worker_errors, wall, quiet=Fa
         "wall_s": round(wall, 2),
         "violations": len(violations),
     }
-    os.makedirs(os.path.join(VERIF, "evidence"), exist_ok=True)
-    with open(os.path.join(VERIF, "evidence", "%s.json" % prop), "w") as f:
+    # runs against a scratch tree (VERIF_REPO set by tools/mut.py / tools/eval_seeds.py) redirect their evidence, so
+    # that /verif/evidence only ever holds evidence of runs against /repo
+    evdir = os.environ.get("VERIF_EVIDENCE_DIR") or os.path.join(VERIF, "evidence")
+    os.makedirs(evdir, exist_ok=True)
+    with open(os.path.join(evdir, "%s.json" % prop), "w") as f:
         json.dump(evidence, f, indent=1, default=str)
     if violations:
         verdict, rc = "violated", 1
